@@ -1,0 +1,37 @@
+package validator
+
+import (
+	"testing"
+
+	"github.com/stretchr/testify/assert"
+	"github.com/stretchr/testify/require"
+
+	"github.com/ccbrown/api-fu/graphql/parser"
+	"github.com/ccbrown/api-fu/graphql/schema"
+)
+
+// A field whose resolver is free must not be charged anything, even if the product of its
+// ancestors' multipliers is too large to represent.
+func TestValidateCost_FreeFieldBeneathOverflowedMultiplier(t *testing.T) {
+	s, err := schema.New(&schema.SchemaDefinition{
+		Query: objectType,
+	})
+	require.NoError(t, err)
+
+	doc, parseErrs := parser.ParseDocument([]byte(`{
+		objects(first: 2147483647) {
+			objects(first: 2147483647) {
+				objects(first: 2147483647) {
+					freeBoolean
+				}
+			}
+		}
+	}`))
+	require.Empty(t, parseErrs)
+
+	const m = 2147483647
+	var cost int
+	errs := ValidateDocument(doc, s, nil, ValidateCost("", nil, maxInt, &cost, schema.FieldCost{Resolver: 1}))
+	assert.Empty(t, errs)
+	assert.Equal(t, 1+m+m*m, cost)
+}
